@@ -200,7 +200,8 @@ def run(eng, run):
     param_paths.append((db.fn("lowlevel.api_sync.transports.socket:SSLStreamTransport.__init__"), ["self.__socket"], "exc", ("self.__socket",)))
     for name in ("lowlevel.api_async.transports.composite:_close_stapled_transports", "lowlevel.api_sync.transports.composite:_close_stapled_transports"):
         f = db.fn(name)
-        param_paths.append((f, [a.arg for a in f.params()], "all", ()))
+        # the transports it is given (a label / flag parameter added next to them is not something to close)
+        param_paths.append((f, [a.arg for a in f.params() if a.annotation is None or "ransport" in ast.unparse(a.annotation)], "all", ()))
     f = db.fn("lowlevel.api_async.transports.composite:_try_graceful_close")
     for f, tracked, exits, late in param_paths:
         check_close_path(eng, run, registry, f, tracked=tracked, exits=exits, late=late)
